@@ -29,7 +29,7 @@ SEQP = ["ffffffff", "fffffffe", "00000000", "mixed"]
 
 
 def dims():
-    return {"ss_signed": [0, 1, 23, 107], "ss_other": [0, 1, 23, 107], "seq": SEQP, "amount": [600000000, 0, 1, 546, 2100000000000000, -1],
+    return {"ss_signed": [0, 1, 23, 107, 252, 253, 300], "ss_other": [0, 1, 23, 107, 252, 253, 300, 65536], "seq": SEQP, "amount": [600000000, 0, 1, 546, 2100000000000000, -1],
             "version": [1, 2, 2 ** 32 - 1], "locktime": [0, 2 ** 32 - 1, -1], "sc": [26, 2, 253, 256, 603], "vout": [0, 1, 5, 2 ** 32 - 1]}
 
 
